@@ -35,6 +35,17 @@ MUTANTS = {
         ('depth-negative', 'dashlive/mpeg/dash/timing.py', 'if not self.timeShiftBufferDepth or self.timeShiftBufferDepth < 0:', 'if not self.timeShiftBufferDepth:'),
         ('leeway-ms', 'dashlive/mpeg/dash/timing.py', 'self.leeway = datetime.timedelta(seconds=options.leeway)', 'self.leeway = datetime.timedelta(milliseconds=options.leeway)'),
     ],
+    'C11': [
+        ('guid-dword', 'dashlive/drm/playready.py', "dword = ''.join([guid[6:8], guid[4:6], guid[2:4], guid[0:2]])", "dword = ''.join([guid[6:8], guid[4:6], guid[0:2], guid[2:4]])"),
+        ('guid-word3-swap', 'dashlive/drm/playready.py', "word3 = ''.join([guid[16:18], guid[18:20]])", "word3 = ''.join([guid[18:20], guid[16:18]])"),
+        ('key-drop-c', 'dashlive/drm/playready.py', "                ^ sha_C_Output[i] ^ sha_C_Output[i + PlayReady.DRM_AES_KEYSIZE_128]", "                ^ sha_C_Output[i]"),
+        ('key-b-no-seed', 'dashlive/drm/playready.py', "        sha_B.update(keyId)\n        sha_B.update(truncatedKeySeed)\n        sha_B_Output", "        sha_B.update(keyId)\n        sha_B_Output"),
+        ('key-seed-31', 'dashlive/drm/playready.py', "        truncatedKeySeed = keySeed[:30]", "        truncatedKeySeed = keySeed[:31]"),
+        ('key-no-le', 'dashlive/drm/playready.py', "        keyId = PlayReady.hex_to_le_guid(keyId, raw=True)\n        if len(keySeed) < 30:", "        if len(keySeed) < 30:"),
+        ('key-seed-check', 'dashlive/drm/playready.py', "        if len(keySeed) < 30:\n            raise ValueError", "        if len(keySeed) < 29:\n            raise ValueError"),
+        ('checksum-7', 'dashlive/drm/playready.py', "        return msg[:8]", "        return msg[:7]"),
+        ('checksum-be', 'dashlive/drm/playready.py', "        cipher = AES.new(keypair.KEY.raw, AES.MODE_ECB)\n        msg = cipher.encrypt(guid_kid)", "        cipher = AES.new(keypair.KEY.raw, AES.MODE_ECB)\n        msg = cipher.encrypt(keypair.KID.raw)"),
+    ],
     'C12': [
         ('mps-start-ceil', 'dashlive/server/requesthandler/media_requests.py', '        start_time: int = int(math.floor(\n            period.start.total_seconds() * timing_ref.timescale))', '        start_time: int = int(math.ceil(\n            period.start.total_seconds() * timing_ref.timescale))'),
         ('mps-num-offset', 'dashlive/server/requesthandler/media_requests.py', '            mod_seg += seg_num - representation.start_number\n', '            mod_seg += seg_num - 1\n'),
